@@ -3,6 +3,10 @@
 # properties listed in its meta.json ("property" plus "also") against a scratch tree carrying the change
 # (tools/mutant_run.sh; four evaluations side by side). One line per (change, property).
 set -u
+# the evaluation works on a snapshot of /verif taken now, so that editing the harness meanwhile does not disturb it
+export VERIF_EVAL_ROOT=$(mktemp -d /tmp/verif-eval-XXXXXX)
+rsync -a --exclude .build --exclude replays --exclude .git /verif/ "$VERIF_EVAL_ROOT"/
+trap 'rm -rf "$VERIF_EVAL_ROOT"' EXIT
 cd /verif/seeded || exit 2
 ids=${@:-$(ls -d */ | tr -d /)}
 for id in $ids; do echo $id; done | xargs -P ${SEEDED_PAR:-4} -I{} bash -c '
